@@ -320,7 +320,7 @@ def run_case(case, res):
             keys = []
             for x in order:
                 keys += [x.node_id, x.data_id, x.data]
-            keys += ["zz", 987654, "a", "b", 1, 2, 3, 4, 5, -1, -2, 6, 2**61 + 5, "ghost-a", "ghost-b", "ghost-c", "ghost-id"]
+            keys += ["zz", 987654, "a", "b", 1, 2, 3, 4, 5, -1, -2, 6, 2**61 + 5, "ghost-a", "ghost-b", "ghost-c", "ghost-id", 0, ""]  # 0: the invisible root's id
             seen = set()
             for key in keys:
                 if (type(key), key) in seen or isinstance(key, bool):
